@@ -184,6 +184,10 @@ static int do_call(const char *fn, int a1, int a2, int a3, int a4)
 		if (kind == 0) {
 			e.early = which == -2;
 			ret = load ? xmp_load_module(ctx, path) : xmp_test_module(path, &ti);
+			/* a path load unpacks before it touches the context: a container that will not
+			 * unpack leaves the context (and a module loaded before) as it was */
+			if (load && ret == -XMP_ERROR_DEPACK)
+				e.early = 1;
 		} else if (kind == 1) {
 			long sz = a2 <= 0 ? (long)a2 : size;
 			if (a2 == INT_MIN)
